@@ -1,0 +1,106 @@
+//! Verification hook (cargo feature `verif-hooks`, off by default): routes the crate's blocking
+//! primitives (Mutex, RwLock, Condvar, the steady-tick thread) through shuttle so that a
+//! harness-side scheduler can generate and replay interleavings. Not part of the public API.
+pub use shuttle::sync::{Mutex, MutexGuard, RwLock, RwLockWriteGuard};
+use std::cell::Cell;
+use std::time::Duration;
+
+// shuttle runs all tasks of one execution on the OS thread of its runner, so thread-locals are
+// per execution and several runners can work in parallel
+thread_local! {
+    static LIVE: Cell<usize> = const { Cell::new(0) };
+    static TIMEOUT_BUDGET: Cell<usize> = const { Cell::new(0) };
+    static TIMEOUTS_FIRED: Cell<usize> = const { Cell::new(0) };
+}
+
+/// Number of threads spawned through this module that have not finished yet.
+pub fn live_threads() -> usize {
+    LIVE.with(|c| c.get())
+}
+
+/// Number of `wait_timeout_while` calls that returned through the generated time-out.
+pub fn timeouts_fired() -> usize {
+    TIMEOUTS_FIRED.with(|c| c.get())
+}
+
+/// Reset the counters at the start of an execution; `timeout_budget` bounds how often a
+/// `wait_timeout_while` may "time out" in this execution.
+pub fn reset(timeout_budget: usize) {
+    LIVE.with(|c| c.set(0));
+    TIMEOUTS_FIRED.with(|c| c.set(0));
+    TIMEOUT_BUDGET.with(|c| c.set(timeout_budget));
+}
+
+pub struct WaitTimeoutResult(bool);
+
+impl WaitTimeoutResult {
+    pub fn timed_out(&self) -> bool {
+        self.0
+    }
+}
+
+#[derive(Default)]
+pub struct Condvar(shuttle::sync::Condvar);
+
+impl Condvar {
+    pub fn new() -> Self {
+        Self(shuttle::sync::Condvar::new())
+    }
+
+    pub fn notify_one(&self) {
+        self.0.notify_one()
+    }
+
+    /// shuttle has no clock: whether the time-out fires is a generated choice (bounded per
+    /// execution), otherwise the call waits for a notification.
+    pub fn wait_timeout_while<'a, T, F: FnMut(&mut T) -> bool>(
+        &self,
+        mut guard: MutexGuard<'a, T>,
+        _dur: Duration,
+        mut condition: F,
+    ) -> std::sync::LockResult<(MutexGuard<'a, T>, WaitTimeoutResult)> {
+        use shuttle::rand::Rng;
+        if condition(&mut *guard) {
+            let fire =
+                TIMEOUT_BUDGET.with(|c| c.get()) > 0 && shuttle::rand::thread_rng().gen_bool(0.5);
+            if fire {
+                TIMEOUT_BUDGET.with(|c| c.set(c.get() - 1));
+                TIMEOUTS_FIRED.with(|c| c.set(c.get() + 1));
+                return Ok((guard, WaitTimeoutResult(true)));
+            }
+        }
+        match self.0.wait_while(guard, condition) {
+            Ok(g) => Ok((g, WaitTimeoutResult(false))),
+            Err(e) => Err(std::sync::PoisonError::new((
+                e.into_inner(),
+                WaitTimeoutResult(false),
+            ))),
+        }
+    }
+}
+
+pub mod thread {
+    use super::*;
+
+    pub struct JoinHandle<T>(shuttle::thread::JoinHandle<T>);
+
+    impl<T> JoinHandle<T> {
+        pub fn join(self) -> std::thread::Result<T> {
+            self.0.join()
+        }
+    }
+
+    pub fn spawn<F: FnOnce() -> T + Send + 'static, T: Send + 'static>(f: F) -> JoinHandle<T> {
+        LIVE.with(|c| c.set(c.get() + 1));
+        JoinHandle(shuttle::thread::spawn(move || {
+            struct Guard;
+            impl Drop for Guard {
+                fn drop(&mut self) {
+                    LIVE.with(|c| c.set(c.get().saturating_sub(1)));
+                }
+            }
+            let _g = Guard;
+            f()
+        }))
+    }
+}
